@@ -39,13 +39,38 @@ ASSUMPTIONS = [
 ]
 MAIN = "file:///zcv/main.conf"
 META = "<>/%#()${} \t"
+import re as _re
+_GTOKEN = _re.compile(r"</|/>|<|>|%|\s+|[^\s<>%]+")
 
 
 def mutate(rng, text, nops=None):
     nops = nops or rng.randint(1, 4)
     for _ in range(nops):
-        level = rng.choice(["char", "char", "token", "line"])
-        if level == "char" and text:
+        level = rng.choice(["char", "char", "token", "line", "gtoken"])
+        if level == "gtoken":
+            # tokens of the line grammar: '<' '</' '/>' '>' '%' words and runs of blanks
+            lines = text.split("\n")
+            cand = [k for k, l in enumerate(lines) if l.strip()[:1] in ("<", "%")] or list(range(len(lines)))
+            if not cand:
+                continue
+            li = rng.choice(cand)
+            toks = [t for t in _GTOKEN.findall(lines[li]) if t != ""]
+            solid = [k for k, t in enumerate(toks) if not t.isspace()]
+            if not solid:
+                continue
+            ti = rng.choice(solid)
+            op = rng.choice(["del", "del", "dup", "swap"])
+            if op == "del":
+                del toks[ti]
+            elif op == "dup":
+                toks.insert(ti, toks[ti])
+            else:
+                later = [k for k in solid if k > ti]
+                if later:
+                    toks[ti], toks[later[0]] = toks[later[0]], toks[ti]
+            lines[li] = "".join(toks)
+            text = "\n".join(lines)
+        elif level == "char" and text:
             i = rng.randrange(len(text))
             op = rng.choice(["del", "dup", "swap", "ins", "ins"])
             if op == "del":
